@@ -284,6 +284,21 @@ def pick(x, n):
     raise AssertionError("selector out of range")
 
 
+def pick_bisect(x, n):
+    """like pick(), with about log2(n) decisions per selector instead of up to n"""
+    lo = 0
+    hi = n
+    if not (0 <= x < n):
+        raise AssertionError("selector out of range")
+    while hi - lo > 1:
+        mid = (lo + hi) // 2
+        if x < mid:
+            hi = mid
+        else:
+            lo = mid
+    return lo
+
+
 def pick_bool(x):
     return True if x else False
 
